@@ -165,7 +165,7 @@ def run(prog, tier) -> Result:
                 if not same:
                     return ("cached value differs from the returned value", f"cached {v!r}, returned {rv!r}")
                 return None
-            cr.run("R17.1", U(name), f"Unit{name} Unit {label}", setup, judge, site=f"Unit.{name}")
+            cr.run("R17.1", U(name), f"Unit{name} Unit {label}", setup, judge, site=f"Unit.{name}", no_replay=True)
 
             def judge_hit(o, name=name):
                 hit = any(t.startswith("cache@") and t.endswith("=hit") for t in o.trace)
@@ -211,7 +211,8 @@ def run(prog, tier) -> Result:
         if setup is None:
             continue        # cannot be evaluated generically: the store stays a foreign write (R17.5)
         before = len(res.violations)
-        cr.run("R17.1b", fi, f"{q} stores into the operation cache (miss)", setup, memo_discipline(op_tags), site=q)
+        cr.run("R17.1b", fi, f"{q} stores into the operation cache (miss)", setup, memo_discipline(op_tags), site=q,
+               no_replay=True)
         cr.run("R17.1b", fi, f"{q} stores into the operation cache (hit)", setup, memo_hit_discipline, cache_hits=True,
                site=q)
         if len(res.violations) == before:
